@@ -48,8 +48,14 @@ type c09Family struct {
 func c09Program(src string) Program {
 	p := Program{Entry: "main", Modules: map[string]string{}}
 	name := "main"
+	entry := ""
 	var b strings.Builder
 	for _, ln := range strings.SplitAfter(src, "\n") {
+		if strings.HasPrefix(ln, "//// entry ") {
+			// the entry module is called something other than `main`
+			entry = strings.TrimSpace(strings.TrimPrefix(ln, "//// entry "))
+			continue
+		}
 		if strings.HasPrefix(ln, "//// module ") {
 			p.Modules[name] = b.String()
 			b.Reset()
@@ -59,6 +65,11 @@ func c09Program(src string) Program {
 		b.WriteString(ln)
 	}
 	p.Modules[name] = b.String()
+	if entry != "" {
+		p.Modules[entry] = p.Modules["main"]
+		delete(p.Modules, "main")
+		p.Entry = entry
+	}
 	return p
 }
 
@@ -175,6 +186,13 @@ fn main() { depth = %d; ping(); println("r", depth); }
 pub fn pong(back: fn() -> null) { back(); }
 fn main() {}
 `, d)
+	}},
+	// names: the stack trace of the limit error has to cope with whatever the host and the script are called
+	{name: "recursion-long-names", interp: true, depthOf: func(d int) int { return d + 1 }, gen: func(d int) string {
+		long := "measure_the_temperature_in_every_room_of_the_house_and_report_it"
+		return fmt.Sprintf(`fn %s(n: int) -> int { if n == 0 { 0 } else { 1 + %s(n - 1) } }
+fn main() { println("r", %s(%d)); }
+//// entry größenprüfung_küche_süd_und_wohnzimmer_nord_temperaturüberwachung`, long, long, long, d)
 	}},
 	{name: "loop-calls", leak: true, interp: true, depthOf: func(d int) int { return 4 }, gen: func(d int) string {
 		return fmt.Sprintf(`fn c3(x: int) -> int { let t = [x, x + 1]; t[0] + t[1] }
@@ -362,7 +380,7 @@ func c09Exec(t *testing.T, spec RunSpec, src string, backend int, limits runtime
 				}
 				return ivalue.NewValueNull(), nil
 			})
-			i := hms.Run(treeLimit, prog.an.Modules, "main", TreeExec{Out: out}, adds, ctxp)
+			i := hms.Run(treeLimit, prog.an.Modules, c09Program(src).Entry, TreeExec{Out: out}, adds, ctxp)
 			rr.out = classifyTree(i)
 		}
 		s.ClearDeadline("run-returns")
